@@ -4,6 +4,7 @@ package main
 
 import (
 	"fmt"
+	"go/constant"
 	"go/token"
 	"go/types"
 	"sort"
@@ -23,6 +24,9 @@ func (fr *Frame) execCall(st *State, c *ssa.CallCommon, in ssa.Instruction, pos 
 	sig := c.Signature()
 	if c.IsInvoke() {
 		recv := fr.val(st, c.Value)
+		if _, isMI := c.Value.(*ssa.MakeInterface); !isMI {
+			u.check(fr, st, "nilptr", "", not(eq(recv.T, "A_nil")), "method call on nil interface value", pos, nil)
+		}
 		// statically known dynamic type?
 		if mi, ok := c.Value.(*ssa.MakeInterface); ok {
 			if sel := u.eng.prog.MethodSets.MethodSet(mi.X.Type()).Lookup(c.Method.Pkg(), c.Method.Name()); sel != nil {
@@ -59,9 +63,63 @@ func (fr *Frame) execCall(st *State, c *ssa.CallCommon, in ssa.Instruction, pos 
 	if rs, ok := fr.fieldCall(st, c.Value, args, in, pos, sig); ok {
 		return rs
 	}
+	if rs, ok := fr.funcTypeCall(st, c.Value, args, in, pos, sig); ok {
+		return rs
+	}
 	u.note("call through unknown function value")
 	u.havocAll(st, "dynamic call")
 	return fr.freshResults(st, sig)
+}
+
+// funcTypeCall: dynamic call of a value whose static type is a named function type with a functype contract.
+func (fr *Frame) funcTypeCall(st *State, fv ssa.Value, args []Val, in ssa.Instruction, pos token.Pos, sig *types.Signature) ([]Val, bool) {
+	u := fr.u
+	n, ok := fv.Type().(*types.Named)
+	if !ok || n.Obj().Pkg() == nil {
+		return nil, false
+	}
+	key := n.Obj().Pkg().Path() + ".functype." + n.Obj().Name()
+	spec, ok := u.eng.contracts.Funcs[key]
+	if !ok {
+		return nil, false
+	}
+	u.note("function-type contract used (assumed for every value of the type): " + n.Obj().Name())
+	env := map[string]Val{}
+	for i := 0; i < sig.Params().Len() && i < len(args); i++ {
+		if nm := sig.Params().At(i).Name(); nm != "" {
+			env[nm] = args[i]
+		}
+		env[fmt.Sprintf("arg%d", i)] = args[i]
+	}
+	ctx := &specCtx{fr: fr, cur: st, old: st, env: env, pkg: n.Obj().Pkg()}
+	for _, cl := range spec.Requires {
+		t, err := u.specBool(cl.Expr, ctx)
+		if err != nil {
+			u.failed = fmt.Sprintf("%s:%d: %v", cl.File, cl.Line, err)
+			return nil, false
+		}
+		u.check(fr, st, "pre", sanitize(n.Obj().Name())+"."+clauseKey(cl), t, "precondition of "+n.Obj().Name()+": "+cl.Text, pos, cl.Props)
+	}
+	old := st.clone()
+	if !fr.applyModifies(st, old, spec, env, n.Obj().Pkg(), n.Obj().Name()) {
+		return nil, false
+	}
+	rs := fr.freshResults(st, sig)
+	if len(rs) > 0 {
+		env["result"] = rs[0]
+	}
+	for i, r := range rs {
+		env[fmt.Sprintf("result%d", i)] = r
+	}
+	for _, cl := range spec.Ensures {
+		t, err := u.specBool(cl.Expr, &specCtx{fr: fr, cur: st, old: old, env: env, pkg: n.Obj().Pkg()})
+		if err != nil {
+			u.failed = fmt.Sprintf("%s:%d: %v", cl.File, cl.Line, err)
+			return rs, true
+		}
+		u.assume(st, t)
+	}
+	return rs, true
 }
 
 func (fr *Frame) freshResults(st *State, sig *types.Signature) []Val {
@@ -282,14 +340,40 @@ func (fr *Frame) applyContractEnv(st *State, spec *FuncSpec, fn *ssa.Function, a
 		return fr.freshResults(st, sig)
 	}
 	old := st.clone()
+	if !fr.applyModifies(st, old, spec, env, fn.Pkg.Pkg, fn.Name()) {
+		return fr.freshResults(st, sig)
+	}
+	rs := fr.freshResults(st, sig)
+	u.bindResultNames(env, spec, fn, rs)
+	pctx := &specCtx{fr: fr, cur: st, old: old, env: env, pkg: fn.Pkg.Pkg}
+	for _, cl := range spec.Ensures {
+		t, err := u.specBool(cl.Expr, pctx)
+		if err != nil {
+			u.failed = fmt.Sprintf("%s:%d: %v", cl.File, cl.Line, err)
+			return rs
+		}
+		u.assume(st, t)
+	}
+	if err := fr.callSiteInvs(st, old, spec, fn, env, false, pos); err != nil {
+		u.failed = err.Error()
+	}
+	if err := u.globalInvs(fr, st, spec, fn.Pkg.Pkg.Path(), false, pos, ""); err != nil {
+		u.failed = err.Error()
+	}
+	return rs
+}
+
+// applyModifies havocs what a contract's modifies clause names (evaluated in the pre-state old).
+func (fr *Frame) applyModifies(st, old *State, spec *FuncSpec, env map[string]Val, pkg *types.Package, name string) bool {
+	u := fr.u
 	// frame
 	if !spec.HasMod {
-		u.havocAll(st, "callee "+fn.Name()+" has a contract without modifies clause")
+		u.havocAll(st, "callee "+name+" has a contract without modifies clause")
 	} else {
-		mts, err := u.resolveModifies(spec, &specCtx{fr: fr, cur: old, old: old, env: env, pkg: fn.Pkg.Pkg})
+		mts, err := u.resolveModifies(spec, &specCtx{fr: fr, cur: old, old: old, env: env, pkg: pkg})
 		if err != nil {
 			u.failed = err.Error()
-			return fr.freshResults(st, sig)
+			return false
 		}
 		if !spec.Flags["noalloc"] {
 			u.hget(st, "$alloc", sInt)
@@ -297,7 +381,7 @@ func (fr *Frame) applyContractEnv(st *State, spec *FuncSpec, fn *ssa.Function, a
 		}
 		for _, mt := range mts {
 			if mt.heap == "*" {
-				u.havocAll(st, "callee "+fn.Name()+" modifies *")
+				u.havocAll(st, "callee "+name+" modifies *")
 				continue
 			}
 			if mt.idx == "" {
@@ -328,24 +412,7 @@ func (fr *Frame) applyContractEnv(st *State, spec *FuncSpec, fn *ssa.Function, a
 			}
 		}
 	}
-	rs := fr.freshResults(st, sig)
-	u.bindResultNames(env, spec, fn, rs)
-	pctx := &specCtx{fr: fr, cur: st, old: old, env: env, pkg: fn.Pkg.Pkg}
-	for _, cl := range spec.Ensures {
-		t, err := u.specBool(cl.Expr, pctx)
-		if err != nil {
-			u.failed = fmt.Sprintf("%s:%d: %v", cl.File, cl.Line, err)
-			return rs
-		}
-		u.assume(st, t)
-	}
-	if err := fr.callSiteInvs(st, old, spec, fn, env, false, pos); err != nil {
-		u.failed = err.Error()
-	}
-	if err := u.globalInvs(fr, st, spec, fn.Pkg.Pkg.Path(), false, pos, ""); err != nil {
-		u.failed = err.Error()
-	}
-	return rs
+	return true
 }
 
 // callSiteInvs checks (before the call) or assumes (after it) the data-structure invariants the callee preserves.
@@ -768,6 +835,7 @@ func (fr *Frame) doAppend(st *State, s, t Val, tOperand ssa.Value) Val {
 		realloc = ra
 	}
 	// appending nothing to a nil slice yields nil; otherwise a non-nil slice
+	u.markWrite(hn, sx("s_arr", s.T))
 	nh := ite(fits, store(h, sx("s_arr", s.T), inplace), store(h, newRef, realloc))
 	u.hset(st, hn, hs, nh)
 	res := ite(fits, sx("mkslice", sx("s_arr", s.T), sx("s_off", s.T), newLen, sx("s_cap", s.T)), sx("mkslice", newRef, "0", newLen, newCap))
@@ -786,13 +854,75 @@ func (fr *Frame) ifaceModel(st *State, key string, recv Val, args []Val, in ssa.
 		return []Val{{sx("ctx_value", recv.T, args[0].T), sig.Results().At(0).Type(), ""}}, true
 	case "(error).Error":
 		return fr.freshResults(st, sig), true
+	case "(hash.Hash).Write":
+		// the bytes written so far, as a string (only writes of []byte(s) conversions are tracked exactly)
+		hn, hs := "$hashin", "(Array Int Str)"
+		h := u.hget(st, hn, hs)
+		ref := sx("a_ref", recv.T)
+		var in0 string
+		if call, ok := in.(ssa.CallInstruction); ok && len(call.Common().Args) == 1 {
+			if cv, ok := call.Common().Args[0].(*ssa.Convert); ok && u.sortOf(cv.X.Type()) == sStr {
+				in0 = fr.val(st, cv.X).T
+			}
+		}
+		if in0 == "" {
+			in0 = u.fresh("hashed_bytes", sStr)
+		}
+		u.hset(st, hn, hs, store(h, ref, u.concat(sel(h, ref), in0)))
+		n := u.freshVal(st, "hashwrite_n", types.Typ[types.Int])
+		return []Val{n, {"A_nil", sig.Results().At(1).Type(), ""}}, true
+	case "(hash.Hash).Sum":
+		u.reg.declFun("hash_sum", "Str", sSlice)
+		hn, hs := "$hashin", "(Array Int Str)"
+		r := u.define("hashsum", sSlice, sx("hash_sum", sel(u.hget(st, hn, hs), sx("a_ref", recv.T))))
+		u.note("library model: hash.Hash Write/Sum (digest = uninterpreted function of the bytes written)")
+		return []Val{{r, sig.Results().At(0).Type(), ""}}, true
 	case "(github.com/echovault/sugardb/internal/clock.Clock).Now":
 		u.note("library model: clock.Now returns the ghost clock $now")
 		return []Val{{u.hget(st, "$now", sInt), sig.Results().At(0).Type(), ""}}, true
 	}
-	// contract on an interface method?
-	if spec, ok := u.eng.contracts.Funcs[key]; ok {
-		_ = spec
+	// contract on an interface method, e.g. "//@ func (CompositeType).GetMem" in the package declaring the interface
+	if call, ok := in.(ssa.CallInstruction); ok {
+		if n, ok := call.Common().Value.Type().(*types.Named); ok && n.Obj().Pkg() != nil {
+			k := n.Obj().Pkg().Path() + ".(" + n.Obj().Name() + ")." + call.Common().Method.Name()
+			if spec, ok := u.eng.contracts.Funcs[k]; ok {
+				u.note("interface method contract used (assumed for every implementation): " + k)
+				env := map[string]Val{"this": recv}
+				msig := call.Common().Method.Type().(*types.Signature)
+				for i := 0; i < msig.Params().Len() && i < len(args); i++ {
+					env[msig.Params().At(i).Name()] = args[i]
+				}
+				ctx := &specCtx{fr: fr, cur: st, old: st, env: env, pkg: n.Obj().Pkg()}
+				for _, cl := range spec.Requires {
+					t, err := u.specBool(cl.Expr, ctx)
+					if err != nil {
+						u.failed = fmt.Sprintf("%s:%d: %v", cl.File, cl.Line, err)
+						return nil, false
+					}
+					u.check(fr, st, "pre", sanitize(call.Common().Method.Name())+"."+clauseKey(cl), t, "precondition of "+k+": "+cl.Text, pos, cl.Props)
+				}
+				old := st.clone()
+				if !fr.applyModifies(st, old, spec, env, n.Obj().Pkg(), k) {
+					return nil, false
+				}
+				rs := fr.freshResults(st, sig)
+				if len(rs) > 0 {
+					env["result"] = rs[0]
+				}
+				for i, r := range rs {
+					env[fmt.Sprintf("result%d", i)] = r
+				}
+				for _, cl := range spec.Ensures {
+					t, err := u.specBool(cl.Expr, &specCtx{fr: fr, cur: st, old: old, env: env, pkg: n.Obj().Pkg()})
+					if err != nil {
+						u.failed = fmt.Sprintf("%s:%d: %v", cl.File, cl.Line, err)
+						return rs, true
+					}
+					u.assume(st, t)
+				}
+				return rs, true
+			}
+		}
 	}
 	return nil, false
 }
@@ -862,7 +992,69 @@ func init() {
 	}
 	models["fmt.Errorf"] = models["errors.New"]
 	models["fmt.Sprintf"] = func(fr *Frame, st *State, args []Val, in ssa.Instruction, pos token.Pos) ([]Val, bool) {
-		return []Val{fr.u.freshVal(st, "sprintf", tStr)}, true
+		u := fr.u
+		call, ok := in.(ssa.CallInstruction)
+		if !ok {
+			return []Val{u.freshVal(st, "sprintf", tStr)}, true
+		}
+		fc, ok := call.Common().Args[0].(*ssa.Const)
+		if !ok || fc.Value == nil || fc.Value.Kind() != constant.String {
+			return []Val{u.freshVal(st, "sprintf", tStr)}, true
+		}
+		format := constant.StringVal(fc.Value)
+		// only the verbs %s %d %v (no flags) are modelled; anything else leaves the result undetermined
+		var pieces []string
+		lit := ""
+		argi := 0
+		h := u.hget(st, u.elemHeapName(tAnyT), "(Array Int (Array Int Any))")
+		elem := func(i int) string { return sel(sel(h, sx("s_arr", args[1].T)), u.sidx(args[1].T, fmt.Sprint(i))) }
+		for i := 0; i < len(format); i++ {
+			if format[i] != '%' {
+				lit += string(format[i])
+				continue
+			}
+			if i+1 >= len(format) {
+				return []Val{u.freshVal(st, "sprintf", tStr)}, true
+			}
+			v := format[i+1]
+			i++
+			if v == '%' {
+				lit += "%"
+				continue
+			}
+			if lit != "" {
+				pieces = append(pieces, u.reg.strLit(lit))
+				lit = ""
+			}
+			e := elem(argi)
+			argi++
+			switch v {
+			case 's':
+				pieces = append(pieces, sx("a_str", e))
+			case 'd':
+				u.declItoa()
+				pieces = append(pieces, sx("itoa", sx("a_num", e)))
+			case 'v':
+				u.reg.declFun("fmt_v", "Any", sStr)
+				u.declItoa()
+				// %v of a string is the string, of an int its decimal text; other dynamic types stay uninterpreted
+				pieces = append(pieces, ite(sx("(_ is A_str)", e), sx("a_str", e), ite(and(sx("(_ is A_num)", e), eq(sx("a_ntid", e), fmt.Sprint(u.reg.tid(types.Typ[types.Int])))), sx("itoa", sx("a_num", e)), sx("fmt_v", e))))
+			default:
+				return []Val{u.freshVal(st, "sprintf", tStr)}, true
+			}
+		}
+		if lit != "" {
+			pieces = append(pieces, u.reg.strLit(lit))
+		}
+		if len(pieces) == 0 {
+			return []Val{{u.reg.strLit(""), tStr, ""}}, true
+		}
+		r := pieces[len(pieces)-1]
+		for i := len(pieces) - 2; i >= 0; i-- {
+			r = u.concat(pieces[i], r)
+		}
+		u.note("library model: fmt.Sprintf with a constant format (verbs %s %d %v)")
+		return []Val{{u.define("sprintf", sStr, r), tStr, ""}}, true
 	}
 	models["time.Now"] = func(fr *Frame, st *State, args []Val, in ssa.Instruction, pos token.Pos) ([]Val, bool) {
 		r := fr.u.fresh("wallclock", sInt)
@@ -983,7 +1175,43 @@ func init() {
 			pr, ok1 := pred(at(r))
 			pi, ok2 := pred(at("i"))
 			if !ok1 || !ok2 {
-				return nil, false
+				// impure callback (e.g. it records what it rejected): havoc what it may write, result undetermined
+				ws := fr.closureWrites(st, ci)
+				if ws == nil {
+					return nil, false
+				}
+				u.note("impure callback passed to slices." + want + ": its writes are havocked, the result is undetermined")
+				names := make([]string, 0, len(ws))
+				for k := range ws {
+					if strings.HasPrefix(k, "!") {
+						continue
+					}
+					if !isLocalName(k) || strings.HasPrefix(k, "%loc_") {
+						names = append(names, k)
+					}
+				}
+				sort.Strings(names)
+				for _, k := range names {
+					srt, known := u.heapSort[k]
+					if !known {
+						continue
+					}
+					// A component the callback writes only inside objects it allocated itself is left alone: what existed
+					// before is unchanged, and the new objects sit at references that were unallocated (unconstrained) anyway.
+					if !ws["!"+k] && strings.HasPrefix(srt, "(Array Int ") && k != "$alloc" {
+						continue
+					}
+					u.hget(st, k, srt)
+					u.havocName(st, k)
+				}
+				u.hget(st, "$alloc", sInt)
+				u.havocName(st, "$alloc")
+				if want == "ContainsFunc" {
+					return []Val{u.freshVal(st, "containsfunc", tBool)}, true
+				}
+				rr := u.fresh("indexfunc", sInt)
+				u.assume(st, and(sx("<=", "(- 1)", rr), sx("<", rr, sx("s_len", s.T))))
+				return []Val{{rr, tInt, ""}}, true
 			}
 			u.note("closure passed to slices." + want + " is assumed not to panic")
 			u.assume(st, and(sx("<=", "(- 1)", r), sx("<", r, sx("s_len", s.T))))
@@ -1014,6 +1242,40 @@ func init() {
 	_ = sort.Strings
 	initHeapModels()
 	initAtomicModels()
+	models["crypto/sha256.New"] = func(fr *Frame, st *State, args []Val, in ssa.Instruction, pos token.Pos) ([]Val, bool) {
+		u := fr.u
+		r := u.alloc(st)
+		hn, hs := "$hashin", "(Array Int Str)"
+		u.hset(st, hn, hs, store(u.hget(st, hn, hs), r, u.reg.strLit("")))
+		t := in.(ssa.Value).Type()
+		return []Val{{sx("A_ref", fmt.Sprint(u.reg.tid(t)), r), t, ""}}, true
+	}
+	models["encoding/hex.EncodeToString"] = func(fr *Frame, st *State, args []Val, in ssa.Instruction, pos token.Pos) ([]Val, bool) {
+		fr.u.reg.declFun("hex_string", "Slice", sStr)
+		return []Val{{sx("hex_string", args[0].T), types.Typ[types.String], ""}}, true
+	}
+	models["encoding/json.Marshal"] = func(fr *Frame, st *State, args []Val, in ssa.Instruction, pos token.Pos) ([]Val, bool) {
+		u := fr.u
+		// the encoder is outside the proof: it only reads its argument; the bytes it returns are remembered in the ghost $lastjson
+		tt := in.(ssa.Value).Type().(*types.Tuple)
+		arr := u.alloc(st)
+		n := u.fresh("jsonlen", sInt)
+		u.assume(st, sx("<=", "0", n))
+		b := Val{u.define("json", sSlice, sx("mkslice", arr, "0", n, n)), tt.At(0).Type(), ""}
+		e := u.freshVal(st, "jsonerr", tt.At(1).Type())
+		hn, hs := u.elemHeapName(types.Typ[types.Uint8]), "(Array Int (Array Int Int))"
+		h := u.hget(st, hn, hs)
+		u.hset(st, "$lastjson", sStr, u.bytesStr(sel(h, sx("s_arr", b.T)), sx("s_off", b.T), sx("s_len", b.T)))
+		u.note("library model: encoding/json.Marshal (uninterpreted bytes, recorded in $lastjson)")
+		return []Val{b, e}, true
+	}
+	models["reflect.DeepEqual"] = func(fr *Frame, st *State, args []Val, in ssa.Instruction, pos token.Pos) ([]Val, bool) {
+		u := fr.u
+		r := u.fresh("deepequal", sBool)
+		u.assume(st, implies(eq(args[0].T, args[1].T), r))
+		u.note("reflect.DeepEqual: identical values are equal; otherwise undetermined")
+		return []Val{{r, types.Typ[types.Bool], ""}}, true
+	}
 }
 
 func (u *Unit) declItoa() {
@@ -1075,10 +1337,11 @@ func (fr *Frame) closurePred(st *State, ci *closInfo, x Val) (string, bool) {
 	}
 	s2 := st.clone()
 	s2.pc = "true"
-	u.sinks = append(u.sinks, map[string]bool{})
+	outer := u.sinks
+	u.sinks = []map[string]bool{{}}
 	sub.run(s2)
-	wrote := u.sinks[len(u.sinks)-1]
-	u.sinks = u.sinks[:len(u.sinks)-1]
+	wrote := u.sinks[0]
+	u.sinks = outer
 	failed := u.pureFail
 	u.pure, u.pureFail = savedPure, savedFail
 	if failed {
@@ -1099,6 +1362,70 @@ func (fr *Frame) closurePred(st *State, ci *closInfo, x Val) (string, bool) {
 		term = ite(sub.rets[k].st.pc, sub.rets[k].vals[0].T, term)
 	}
 	return term, true
+}
+
+// closureWrites runs a (possibly impure) closure once symbolically, discarding everything but the set of heap variables
+// it may write (nil when that set is unknown). Used to model library functions that call an impure callback any number
+// of times: the written variables are havocked, the result is left undetermined.
+func (fr *Frame) closureWrites(st *State, ci *closInfo) map[string]bool {
+	u := fr.u
+	fn := ci.fn
+	if fn.Blocks == nil || instrCount(fn) > 300 {
+		return nil
+	}
+	for _, f := range u.inlineStack {
+		if f == fn {
+			return nil
+		}
+	}
+	savedPure, savedBody, savedObls, savedFail := u.pure, len(u.body), len(u.obls), u.pureFail
+	u.pure++
+	sub := u.newFrame(fn, fr)
+	s2 := st.clone()
+	s2.pc = "true"
+	for _, p := range fn.Params {
+		sub.vals[p] = Val{T: "0", Ty: p.Type()}
+		switch u.sortOf(p.Type()) {
+		case sStr:
+			sub.vals[p] = Val{T: u.reg.strLit(""), Ty: p.Type()}
+		case sAny:
+			sub.vals[p] = Val{T: "A_nil", Ty: p.Type()}
+		case sSlice:
+			sub.vals[p] = Val{T: "(mkslice 0 0 0 0)", Ty: p.Type()}
+		case sBool:
+			sub.vals[p] = Val{T: "false", Ty: p.Type()}
+		case sReal:
+			sub.vals[p] = Val{T: "0.0", Ty: p.Type()}
+		}
+		if _, isStruct := p.Type().Underlying().(*types.Struct); isStruct && !isTimeType(p.Type()) {
+			sub.vals[p] = Val{T: u.zero(p.Type()), Ty: p.Type()}
+		}
+	}
+	for i, fv := range fn.FreeVars {
+		if i < len(ci.bindings) {
+			sub.vals[fv] = ci.bindings[i]
+		}
+	}
+	u.inlineStack = append(u.inlineStack, fn)
+	outer := u.sinks
+	u.sinks = []map[string]bool{{}}
+	savedFloor := u.freshFloor
+	u.freshFloor = u.allocSeq + 1
+	if u.freshFloor == 1 {
+		u.freshFloor = 1
+	}
+	sub.run(s2)
+	u.freshFloor = savedFloor
+	wrote := u.sinks[0]
+	u.sinks = outer
+	u.inlineStack = u.inlineStack[:len(u.inlineStack)-1]
+	u.pure, u.pureFail = savedPure, savedFail
+	u.body = u.body[:savedBody]
+	u.obls = u.obls[:savedObls]
+	if wrote["*"] {
+		return nil
+	}
+	return wrote
 }
 
 // ---------- container/heap (assumed contract: only the heap.Interface methods are called, with in-range indices) ----------
